@@ -88,6 +88,9 @@ type Engine struct {
 	freshMerges int
 	splitAt     *ssa.If
 	volatile    map[*Cell]bool
+	opaqueStore, opaqueDerefUsed bool
+	freshMergeDepth int
+	topFrame    *frame // frame of the function under contract (locals by name for effect conditions)
 	mergedCell  map[string]*Cell   // mergedptr name -> the stand-in object its dereferences read
 	mergedOf    map[*Cell][]*Cell  // candidate object -> stand-in objects that may alias it
 	trustedUsed map[string]bool
@@ -720,6 +723,15 @@ func (e *Engine) load(st *State, addr Val, t types.Type, reach string, pos token
 			return e.symbolic(st, t, a.Cell.Name+"_vol")
 		}
 		return st.cells[a.Cell]
+	case OpaqueV:
+		// a pointer to a value that is itself opaque (*ulid.ULID, *[16]byte ...): reading it twice gives the same
+		// value as long as the function never writes through such a pointer (stores through untracked pointers are
+		// dropped, so after one the reads are unconstrained again)
+		if _, isArr := t.Underlying().(*types.Array); isArr && !e.opaqueStore && a.T != "nilU" {
+			e.declUF("uf_deref", "(U) U")
+			e.opaqueDerefUsed = true
+			return OpaqueV{"(uf_deref " + a.T + ")"}
+		}
 	}
 	return nil
 }
@@ -745,6 +757,10 @@ func (e *Engine) store(st *State, addr Val, v Val, reach string, pos token.Pos) 
 		e.forgetStandIns(st, a.Cell)
 	case OpaqueV:
 		e.note("store through untracked pointer dropped at " + e.fset.Position(pos).String())
+		if e.opaqueDerefUsed {
+			panic(unsupported{"store through an untracked pointer after reads through such pointers were treated as stable"})
+		}
+		e.opaqueStore = true
 	}
 }
 
@@ -1409,6 +1425,9 @@ func (e *Engine) execFunc(fn *ssa.Function, args []Val, bind []Val, st0 *State, 
 	f := &frame{fn: fn, env: map[ssa.Value]Val{}, named: map[string]*Cell{}, invs: map[*ssa.BasicBlock]func(*State) string{}, allocs: map[*Cell]*ssa.BasicBlock{}, top: top}
 	if len(args) != len(fn.Params) {
 		panic(unsupported{fmt.Sprintf("arity mismatch calling %s: %d args for %d params", fn.Name(), len(args), len(fn.Params))})
+	}
+	if top && e.pure == 0 {
+		e.topFrame = f
 	}
 	for i, p := range fn.Params {
 		f.env[p] = args[i]
